@@ -20,9 +20,12 @@ META = {
             '(unrestricted statement refuted by the decided witness 1.0 = 1 = 1.00, 1.0 < 1.00 — known finding C07/alpine-leading-zero-padding); for Maven on versions whose token '
             'list is canonical: first number, dot-numbers, then only dash-prefixed qualifiers/numbers, N(.N)*(-qualifier|-N)* (unrestricted statement refuted by the decided witness '
             '1 < 1.foo < 1rc, 1 > 1rc — known finding C07/maven-qualifier-cycle). Published rule: agreement with semver.org §11 is proved on ALL canonically rendered versions (C07_semver_spec; '
-            'after repair 6209aa57 the identifier -5 is alphanumeric) and re-checked by the oracle on the implementation for every canonical semver pair. NOT DISCHARGED / not formalised: agreement with the published Debian (deb-version), RubyGems and CRAN rules; that the '
-            'reader specParse used by the oracle inverts render (checked on an example only); adequacy of the fuel of the PyPI (regexp star, legacy splitter), Alpine (number prefix, '
-            'suffix finder) recognisers and of Maven walkDown (exhaustion there is not a crash in the model; covered by the correspondence only).',
+            'after repair 6209aa57 the identifier -5 is alphanumeric) and re-checked by the oracle on the implementation for every canonical semver pair. NOT DISCHARGED / not formalised: agreement with the published Debian (deb-version), RubyGems and CRAN rules. '
+            'Fuel: Debian, Red Hat, Packagist fuel is eliminated in the proofs; Maven trimLoop/walkDown exhaustion is a panic outcome of the model and is excluded by C07_maven_total; '
+            'for the Alpine number-prefix / suffix finder and the PyPI legacy splitter / regexp star C07_fuel_adequate shows that any fuel above the argument length gives the same result '
+            '(what is not proved is only that the star inside the PEP 440 recogniser is always applied to a suffix of the input, i.e. to something no longer than the length the fuel was '
+            'computed from; if that failed the model would stop iterating early and accept fewer strings as PEP 440 — a model/implementation mismatch in the stream, never an unsound theorem, '
+            'since the order theorems are stated on parsed values). The reader specParse of the oracle provably inverts render (C07_semver_specParse_render).',
     'note': 'Trusted: Lean kernel; axioms propext/Quot.sound/Classical.choice at most; big.Int.SetString on a non-empty ASCII digit string succeeds; strings.Compare on valid UTF-8 = code point order; '
             'strings.ToLower modelled on the generator alphabet; Go regexp leftmost-first semantics as transcribed in the recognisers; the Go harness and line protocol.',
 }
@@ -33,7 +36,7 @@ THEOREMS = ([P + 'C07_%s_total' % f for f in FAMS] + [P + 'C07_%s_refl' % f for 
             [P + 'C07_%s_trans' % f for f in ['semver', 'nuget', 'cran', 'debian', 'rubygems', 'redhat', 'pypi']] +
             [P + 'C07_packagist_trans_partial', P + 'C07_packagist_trans_fails', P + 'C07_alpine_trans_partial', P + 'C07_alpine_trans_fails',
              P + 'C07_maven_trans_partial', P + 'C07_maven_trans_fails', P + 'C07_all_total', P + 'C07_all_refl', P + 'C07_all_antisymm', P + 'C07_eco_total', P + 'C07_unsupported',
-             P + 'C07_semver_spec', P + 'C07_semver_hyphen_identifier', P + 'C07_cran_nonnumeric', P + 'C07_packagist_long_number'])
+             P + 'C07_semver_spec', P + 'C07_semver_hyphen_identifier', P + 'C07_semver_specParse_render', P + 'C07_fuel_adequate', P + 'C07_cran_nonnumeric', P + 'C07_packagist_long_number'])
 
 ECO_FAM = {'npm': 'semver', 'crates.io': 'semver', 'Go': 'semver', 'Hex': 'semver', 'Pub': 'semver', 'ConanCenter': 'semver', 'NuGet': 'nuget', 'CRAN': 'cran',
            'Debian': 'debian', 'Ubuntu': 'debian', 'RubyGems': 'rubygems', 'Red_Hat': 'redhat', 'Packagist': 'packagist', 'PyPI': 'pypi', 'Alpine': 'alpine', 'Maven': 'maven'}
@@ -189,7 +192,7 @@ def run(ctx):
                    'strings.ToLower / unicode.IsSpace as modelled on the generator alphabet', 'harness/cmd/c07gen + lean/Drivers/C07.lean line protocol', 'Lean compiler for the driver executable']
     ctx.assumptions = ['version strings are valid UTF-8: ASCII plus the probes é É U+0130 U+212A Σ Ж U+FF21 U+FF11 U+0662 U+00A0 U+0085 U+2003 € 😀 ß (invalid UTF-8 is outside the model)',
                        'theorems are stated over List Char (= Go strings that are valid UTF-8)',
-                       'fuel of the Debian, Red Hat and Packagist loops and of the Maven trim loop is proved adequate; fuel of the PyPI / Alpine recognisers and Maven walkDown is validated by the correspondence only',
+                       'fuel: proved adequate everywhere (see C07_fuel_adequate, C07_maven_total) except that the PEP 440 star is assumed to be applied to suffixes of the input only',
                        'semver.org §11 is taken as the published rule of all six semver-like ecosystems (npm, crates.io, Go, Hex, Pub, ConanCenter)']
     ctx.rule = ('case = `cmp eco a b` (a?b, b?a, a?a, b?b, accepted flags) or `tri eco a b c` (a?b, b?c, a?c); strings come from per-family grammar-directed generators (leading zeros, 25-digit '
                 'numbers, every separator, pre/post/dev/local, epochs, qualifiers), token concatenation, raw symbols, and (base, one edit of base) mutations; thorough adds every string of length '
